@@ -82,14 +82,17 @@ def run_path(claim, decisions, mode='sym', given=None, seed=0, prune=False):
     return c, h, status, info
 
 
-def explore(claim):
-    """depth-first enumeration of decision prefixes; no solver involved"""
+def explore(claim, emit=None):
+    """depth-first enumeration of decision prefixes; no solver involved (apart from the bounded pruning lemma).
+    `emit` receives every finished path at once, so that an exploration that is cut short keeps what it reached"""
     prefix, paths = [], []
     while True:
         c, h, status, info = run_path(claim, prefix, prune=True)
         dec = c.decisions[:c.pos]
         paths.append(dict(decisions=list(dec), status=status, info=info,
                           labels=[o[0] for o in c.oblig], kinds=[o[2] for o in c.oblig]))
+        if emit is not None:
+            emit(paths[-1])
         while dec and dec[-1] is False:
             dec.pop()
         if not dec:
@@ -98,6 +101,8 @@ def explore(claim):
         prefix = dec
         if len(paths) >= claim.max_paths:
             paths.append(dict(decisions=None, status='budget', info=dict(msg='max_paths reached'), labels=[], kinds=[]))
+            if emit is not None:
+                emit(paths[-1])
             break
     return paths
 
@@ -323,7 +328,8 @@ def _worker(target, args, conn):
 
 
 def explore_job(claim, conn):
-    conn.send(('paths', explore(claim)))
+    explore(claim, emit=lambda p: conn.send(('path', p)))
+    conn.send(('paths-complete',))
     conn.send(('done',))
 
 
@@ -372,7 +378,8 @@ class Pool:
                 except (EOFError, OSError):
                     self._finish(conn)
                     continue
-                st['last'] = now
+                if msg[0] != 'path':        # streamed exploration results do not extend the job's time limit
+                    st['last'] = now
                 more = on_msg(st['key'], msg)
                 if more:
                     jobs.extend(reversed(list(more)))
@@ -492,7 +499,7 @@ def validate_translator(prop, claims, seed, pool, max_claims=120):
                 outs = json.loads(line[len('BATCH-RESULT '):])
     except subprocess.TimeoutExpired:
         pass
-    rep = dict(claims_sampled=len(sel), compared=0, values_compared=0, mismatches=[], skipped=len(sel) - len(usable))
+    rep = dict(claims_sampled=len(sel), compared=0, values_compared=0, mismatches=[], skipped=len(sel) - len(usable), native_failures=[])
     if outs is None:
         rep['error'] = 'native batch did not finish'
         return rep
@@ -501,12 +508,18 @@ def validate_translator(prop, claims, seed, pool, max_claims=120):
             rep['skipped'] += 1
             continue
         rep['compared'] += 1
+        for v in o.get('violations', [])[:2]:
+            # an assertion of the claim failing on the real, unshimmed library at the validation inputs: a concrete candidate
+            # (re-replayed and triaged like a solver counterexample)
+            rep['native_failures'].append(dict(claim=n, label=v[0], detail=str(v[1])[:300], inputs=g['inputs']))
         nat_exc = any(v[0].startswith('unexpected-exception') for v in o.get('violations', []))
         if (g['status'] == 'exc') != nat_exc:
             rep['mismatches'].append(f"{n}: exception on one side only (shimmed {g['status']} {g.get('info')}, native {o.get('violations', [])[:1]})")
             continue
         nat = o.get('observed', [])
-        for (l1, v1), (l2, v2) in zip(g['observed'], nat):
+        for o1, o2 in zip(g['observed'], nat):
+            (l1, v1), (l2, v2) = o1[:2], o2[:2]
+            sc = max(o1[2] if len(o1) > 2 else 1.0, o2[2] if len(o2) > 2 else 1.0)     # magnitude scale stated by the claim
             if l1 != l2 or len(v1) != len(v2):
                 rep['mismatches'].append(f'{n}: observation order differs at {l1!r} / {l2!r}')
                 break
@@ -514,7 +527,7 @@ def validate_translator(prop, claims, seed, pool, max_claims=120):
                 if a is None or b is None:
                     continue
                 rep['values_compared'] += 1
-                if abs(a - b) > 1e-7 * max(1.0, abs(a), abs(b)):
+                if abs(a - b) > 1e-7 * max(1.0, abs(a), abs(b)) and abs(a - b) > 1e-9 * sc:
                     rep['mismatches'].append(f'{n}: {l1}: shimmed {a!r} vs native {b!r}')
                     break
             else:
@@ -571,14 +584,16 @@ def main(argv=None):
     errors = []
 
     def on_msg1(key, msg):
-        if msg[0] == 'paths':
-            paths[key] = msg[1]
+        if msg[0] == 'path':
+            paths.setdefault(key, []).append(msg[1])
         elif msg[0] == 'error':
             errors.append((key, msg[1], msg[2]))
 
     def on_kill1(key, budget=False):
-        # an exploration that does not finish leaves the claim undecided (reported), it is not a harness error
-        paths[key] = [dict(decisions=None, status='budget', info=dict(msg='exploration did not finish in 200 s'), labels=[], kinds=[])]
+        # an exploration that does not finish leaves the claim undecided (reported), it is not a harness error; the paths
+        # it did finish are kept and solved (each is a complete execution of the claim)
+        paths.setdefault(key, []).append(dict(decisions=None, status='budget', info=dict(msg='exploration did not finish in 200 s'),
+                                              labels=[], kinds=[]))
 
     budget = getattr(hmod, 'WALL_BUDGET', {}).get(tier, 420 if tier == 'quick' else 2400)
     deadline = t_start + budget
@@ -768,6 +783,12 @@ def main(argv=None):
                     stats['inconclusive'] += 1
                     pc['inconclusive'] += 1
                     incon.append(f"{c.name}#p{pi}:{lab}: unknown after {res.get('time', 0):.0f}s")
+
+    # assertions that failed natively during translator validation (random inputs satisfying the claim's assumptions) are
+    # candidates too: not produced by a solver model, confirmed by the same replay
+    for nf in (validation or {}).get('native_failures', []):
+        if nf['claim'] in per_claim:
+            cands.append(dict(claim=nf['claim'], path=-1, label=nf['label'], kind='native', inputs=nf['inputs'], how='validation-native'))
 
     # replay candidates (bounded per (claim, label-root)); reproduced ones are violations
     violations, spurious, known_hit = [], [], {}
